@@ -550,6 +550,21 @@ def oracle_C15(hi, ops, obs):
             if i >= len(b['txr']): break
             leaves = [lf for m in tx['msgs'] for lf in m.flat()]
             if any(lf.kind == 'PARAMS' for lf in leaves): break   # the minimum may have moved: judge no later message of this block
+            # … and only those rules: a well-formed application (lengths within x/staking's limits, commission valid, at or
+            # above the chain minimum and inside the app's limiter, an ed25519 key) of an operator and a key nobody uses —
+            # judged on the first application of the block — is accepted: the handler has no other ground to refuse it
+            if b['txr'][i] != 'ok' and b['h'] > 1 and len(tx['msgs']) == 1 and tx['msgs'][0].kind == 'CREATE' and prev['vals'] \
+                    and (b['txr'][i].startswith('poa:') or b['txr'][i].startswith('staking:')) \
+                    and not any(l2.kind == 'CREATE' for t2 in ob['txs'][:i] for m2 in t2['msgs'] for l2 in m2.flat()):
+                a = tx['msgs'][0].args
+                cop, ckey = int(a[0]), int(a[1])
+                lens = [int(x) for x in a[2:7]]; rate, maxr, maxc = int(a[7]), int(a[8]), int(a[9])
+                wellformed = tx['signer'] == cop and 0 <= ckey < 10 and 1 <= lens[0] <= 70 and lens[1] <= 3000 and lens[2] <= 140 and lens[3] <= 140 and lens[4] <= 280 \
+                    and max(minc, E18 // 10) <= rate <= maxr <= E18 // 2 and 0 <= maxc <= maxr and a[10] == '1'
+                unused = cop not in prev['vals'] and all(v['key'] != ckey for v in prev['vals'].values()) \
+                    and all(int(x[0]) != cop and int(x[1]) != ckey for x in (prev.get('pend') or []))
+                if wellformed and unused:
+                    out.append(Viol(hi, b['h'], 'valid-application-refused', f"tx {i} operator {cop} key {ckey} -> {b['txr'][i]}"))
             if b['txr'][i] != 'ok': continue
             for lf in leaves:
                 if lf.kind != 'CREATE': continue
